@@ -444,6 +444,13 @@ def _spec_calc(ctx, out, rng, n_hist):
             out["nontrivial"].add(("spec-calc", trace, json.dumps(c["ops"][:3])))
 
 
+def _hard(fails):
+    """failures that end a history: everything except the export gap for optimisable inputs that are not user
+    parameters, which the comparison functions compensate for (their settings are copied by hand), so the rest of
+    the history remains a valid search for OTHER defects"""
+    return [f for f in fails if not f["sig"].startswith("lf:rules-hidden-optpar")]
+
+
 def _lf_case(case, out, sample=False):
     """run one history on a real likelihood function; returns list of failures (dicts)"""
     from . import c07_lf as L
@@ -541,6 +548,8 @@ def _lf_case(case, out, sample=False):
         if r == "ok" and k in ("opt", "calc"):
             with L._Quiet():
                 ent["snapshot"] = lf.get_param_rules()
+            # what the optimiser moved but rules cannot name (replayed by hand on the comparison function)
+            ent["hidden"] = L.hidden_snapshot(lf)
         executed.append(ent)
         return r
 
@@ -576,6 +585,17 @@ def _lf_case(case, out, sample=False):
             lf._update_suspended = False
             lf._updateIntermediateValues()
         obs = L.observe(lf)
+        opk = op[0]
+        # O0: the value the function reported right after the operation must be the value it has once EVERY
+        # definition is recomputed (make_calculator does that, whatever the dirty set says), and the value of
+        # the calculator made from it: no change may be left unpropagated, whoever made it (rule, alignment,
+        # block, or the hand-back of an optimiser's calculator)
+        if "lnL_recomputed" in obs and not (L.close(obs["lnL"], obs["lnL_recomputed"])
+                                             and L.close(obs["lnL_recomputed"], obs["calc_value"])):
+            fail("lnL reported after the operation differs from lnL once every definition is recomputed / from a "
+                 "calculator made from the function: a changed input was not propagated",
+                 f"lf:stale-intermediate:{opk}{ml}", idx,
+                 dict(recomputed=obs["lnL_recomputed"], calculator=obs["calc_value"]), obs["lnL"])
         # O1: a new function given the same (successful) settings, one at a time
         f1 = L.new_lf(case)
         bad_replay = False
@@ -585,6 +605,7 @@ def _lf_case(case, out, sample=False):
             if "snapshot" in e:
                 with L._Quiet():
                     f1.apply_param_rules(copy.deepcopy(e["snapshot"]))
+                L.apply_hidden(f1, e.get("hidden") or {})
             else:
                 if L.apply_op(f1, e["op"], []) != "ok":
                     bad_replay = True
@@ -592,7 +613,6 @@ def _lf_case(case, out, sample=False):
             bump(out, "lf_replay", "op-raised-on-fresh")
             break
         o1 = L.observe(f1)
-        opk = op[0]
         if not L.close(obs["lnL"], o1["lnL"]):
             fail("lnL differs from a newly built function given the same settings one by one",
                  f"lf:replay-lnL:{opk}", idx, o1["lnL"], obs["lnL"])
@@ -632,7 +652,20 @@ def _lf_case(case, out, sample=False):
                                   and L.vec_close(obs["optvec"], o2b["optvec"], 1e-9))
                 except Exception:  # noqa
                     pass
-                if order_only:
+                hidden_only = False
+                if not order_only and L.hidden_optpars(lf):
+                    try:
+                        o2c = L.observe(L.fresh_from_rules(case, lf, cur_aln, hidden=True))
+                        hidden_only = (L.close(obs["lnL"], o2c["lnL"]) and obs["nfp"] == o2c["nfp"]
+                                       and L.vec_close(obs["optvec"], o2c["optvec"], 1e-9))
+                    except Exception:  # noqa
+                        pass
+                if hidden_only:
+                    fail("exported rules do not reproduce the function: an optimisable input that is not a user "
+                         "parameter (" + ", ".join(L.hidden_optpars(lf)) + ") is not exported, the re-imported function "
+                         "has it at its default (" + bad[0] + " differs; copying that input over by hand repairs it)",
+                         f"lf:rules-hidden-optpar{ml}", idx, bad[2], bad[3])
+                elif order_only:
                     fail("exported rules reproduce the function only when applied in another order: a rule whose "
                          "scope rectangle covers another rule's scope is exported after it (" + bad[0] + " differs)",
                          f"lf:rules-order{ml}", idx, bad[2], bad[3])
@@ -643,7 +676,7 @@ def _lf_case(case, out, sample=False):
                  "applies", repr(e)[:200])
         # O3: everything constant at the reported values (single-locus, single-bin functions only)
         if ml:
-            if fails:
+            if _hard(fails):
                 break
             continue
         try:
@@ -655,7 +688,7 @@ def _lf_case(case, out, sample=False):
                      idx, l3, obs["lnL"])
         except Exception as e:  # noqa
             bump(out, "lf_const_oracle", "raised:" + type(e).__name__)
-        if fails:
+        if _hard(fails):
             break
     else:
         idx = len(case["ops"]) - 1
@@ -828,6 +861,15 @@ def _spec_lf_ml(ctx, out, rng, n_cases, n_ops):
         dict(model="HKY85", mkw=gam, bins=2, loci=["a", "b"], taxa=2, aln0=0,
              ops=[["rule", "kappa", {"bins": ["bin0", "bin1"], "loci": ["a", "b"], "is_independent": True, "init": 2.0}],
                   ["rule", "kappa", {"bin": "bin1", "locus": "a", "edges": ["Cat", "Dog"], "is_independent": False, "init": 0.7}]]),
+        # optimisable inputs that are not user parameters (free distribution over site classes): the hand-back of
+        # an optimiser's calculator must propagate them like any other input
+        dict(model="HKY85", mkw=dict(ordered_param="rate", distribution="free"), bins=2, taxa=0, aln0=0,
+             ops=[["opt", dict(max_evaluations=25, local=True)], ["rule", "length", {"edge": "Cat", "init": 0.25}],
+                  ["calc", 12345, 4], ["rule", "kappa", {"bin": "bin1", "init": 3.0}]]),
+        dict(model="HKY85", mkw=dict(ordered_param="kappa", distribution="free"), bins=3, taxa=2, aln0=1,
+             ops=[["rule", "kappa", {"init": 2.0}], ["calc", 777, 5],
+                  ["block", [["rule", "length", {"edges": ["Cat", "Dog"], "is_independent": False, "init": 0.2}]]],
+                  ["opt", dict(max_evaluations=12, local=True)]]),
         dict(model="GN", loci=["a", "b"], taxa=2, aln0=1,
              ops=[["rule", "A>G", {"loci": ["a", "b"], "is_independent": True, "init": 1.7}],
                   ["rule", "length", {"edges": ["Cat", "Dog"], "is_independent": False, "init": 0.2}],
@@ -901,6 +943,13 @@ def match_finding(f, k):
             return False
     if r.get("needs_trace") and not inp.get("trace"):
         return False
+    if r.get("needs_hidden_optpar"):
+        # the defect needs an optimisable input that is not a user parameter: a FREE distribution over >= 2 site
+        # classes, and an optimiser / calculator hand-back in the history
+        if (inp.get("mkw") or {}).get("distribution") != "free" or int(inp.get("bins") or 0) < 2:
+            return False
+        if not any(o[0] in ("opt", "calc") for o in (inp.get("ops") or [])):
+            return False
     if r.get("needs_exception_exit"):
         # the failing step must be (lf) the block an exception left, or (toy controller) come after such an exit
         ops = inp.get("ops") or []
